@@ -1079,8 +1079,35 @@ package serf
 // obligations (index, slice, nil, map write, type assertion, close, division) of every function that touches bytes
 // received from the network to be decided for arbitrary input. Decoded values are arbitrary inhabitants of their types.
 
+//@ import "github.com/hashicorp/serf/coordinate"
+
+// The coordinate client accepts or rejects an observation; its own contract (rejection leaves the coordinate alone, an
+// accepted one keeps it valid) is proved in package coordinate. Here only the fact of the call and its outcome matter.
+//@ func (c *coordinate.Client) Update(node string, other *coordinate.Coordinate, rtt time.Duration) (r *coordinate.Coordinate, err error)
+//@   trusted
+//@   logcalls coordupdate
+//@   assigns
+//@ end
+
+// both are copies of the client's own coordinate, which keeps its dimensionality (proved in package coordinate)
+//@ func (c *coordinate.Client) GetCoordinate() (r *coordinate.Coordinate)
+//@   trusted
+//@   assigns
+//@   ensures copy: r != nil
+//@ end
+//@ func (c *coordinate.Coordinate) DistanceTo(other *coordinate.Coordinate) (d time.Duration)
+//@   trusted
+//@   assigns
+//@ end
+
+// a peer's coordinate is cached only after the coordinate client accepted the observation it came with (C20, last clause)
 //@ func (p *pingDelegate) NotifyPingComplete(other *memberlist.Node, rtt time.Duration, payload []byte)
 //@   requires wf: p != nil && p.serf != nil && p.serf.config != nil && p.serf.coordClient != nil && p.serf.coordCache != nil && other != nil
+//@   oldlet u0 := callNOf("coordupdate")
+//@   ensures at_most_one_observation [C20]: callNOf("coordupdate") <= u0+1
+//@   ensures cached_only_when_accepted [C20]: callNOf("coordupdate") == u0 || !callRetOf("coordupdate", u0) ==>
+//@       forall(func(k string) bool { return mapHas(p.serf.coordCache, k) == old(mapHas(p.serf.coordCache, k)) && same(mapAt(p.serf.coordCache, k), old(mapAt(p.serf.coordCache, k))) })
+//@   ensures accepted_is_cached [C20]: callNOf("coordupdate") == u0+1 && callRetOf("coordupdate", u0) ==> mapHas(p.serf.coordCache, other.Name) && mapHas(p.serf.coordCache, p.serf.config.NodeName)
 //@ end
 
 //@ func (m *mergeDelegate) validateMemberInfo(n *memberlist.Node) (err error)
